@@ -560,6 +560,18 @@ def zoo(tier='quick'):
     Z.append(two_zone('xz_firm_gov_flows', dict(firm='fm1', caps=True), dict(gov='tre_cb', firm='multi'),
                       [G('AA.GOV', 'AA.BUS', name='SUBSIDY', inc_dst=True), G('AA.BUS', 'BB.HH', name='BONUS', inc_src=True, inc_dst=True),
                        G('BB.BUS', 'AA.GOV', name='LICENCE', inc_src=False, inc_dst=True), G('BB.TRE', 'AA.CAP', name='COUPON', inc_src=True, inc_dst=False)]))
+    # user-registered income exclusions (public Model.AddCashFlowIncomeExclusion) added after all declarations, for either of two household-type sectors
+    for nm, a, b in (('sim_caps_user_exclusion', 'CA.HH', 'CA.CAP'), ('sim_caps_user_exclusion_rev', 'CA.CAP', 'CA.HH')):
+        p = single(nm, caps=True, firm='fm1')
+
+        def post(c, a=a, b=b):
+            c.model.AddCashFlowIncomeExclusion(c[a], 'ALLOW')
+            c[a].AddVariable('ALLOW', 'allowance paid', '0.1*AfterTax')
+            c[a].AddCashFlow('-ALLOW', None, 'allowance paid (excluded from income by the user)')
+            c[b].AddCashFlow('+' + c[a].GetVariableName('ALLOW'), None, 'allowance received')
+        p.post(post)
+        p.features.add('user-income-exclusion')
+        Z.append(p)
     # a sector living in the external (numeraire) country sends to / receives from real-currency sectors
     p = two_zone('xz_numeraire_fund', {}, dict(caps=True, firm='fm1'), [])
     p.decl('EXT.FUND', lambda c: Sector(c['EXT'], c.nm('FUND')), needs=('EXT',), group='EXT')
